@@ -172,8 +172,8 @@ def setKey (k : String) (v : V) : List (String × V) → List (String × V)
 /-- `strconv.Atoi` on a 64-bit platform: optional sign, one or more ASCII digits, int64 range -/
 def atoi (s : String) : Option Int :=
   let cs := s.toList
-  let neg := match cs with | '-' :: _ => true | _ => false
-  let ds := match cs with | '-' :: r => r | '+' :: r => r | _ => cs
+  let neg := cs.head? == some '-'
+  let ds := if cs.head? == some '-' || cs.head? == some '+' then cs.tail else cs
   if ds.isEmpty || !ds.all Char.isDigit then none
   else
     let n := Nat.ofDigitChars 10 ds 0
